@@ -338,6 +338,81 @@ theorem C16_rangemap_full_false :
     (rangeMapFrom false false (rangesSeen false true [⟨0, 999999999999999⟩])).steps = 1000000000000000 := by
   decide +kernel
 
+/-! ## control-plane arguments: cluster names in node ids, declared counts -/
+
+theorem clusterNameChar_ascii {b : UInt8} (h : clusterNameChar b = true) : b.toNat < 128 := by
+  unfold clusterNameChar at h
+  simp only [Bool.or_eq_true, Bool.and_eq_true, decide_eq_true_eq, beq_iff_eq] at h
+  omega
+
+theorem charCount_le (s : Bytes) : charCount s ≤ s.length := List.countP_le_length
+
+/-- **C16_node_id** — a name accepted by the ASCII-only `ClusterName::try_from` is cut by
+`gen_node_id`'s `truncate(24)` on a char boundary: `CLUSTER NODES` / `CLUSTER SLOTS` cannot panic
+there, whatever name a client managed to install. -/
+theorem C16_node_id (name : Bytes) (h : clusterNameOk name = true) : nodeIdPanics name = false := by
+  have hN : Um.Gen.Hostile.NODE_ID_NAME_LEN = 24 := by decide
+  unfold clusterNameOk at h
+  simp only [Bool.and_eq_true, List.all_eq_true] at h
+  have hall : ∀ b ∈ nodeIdNameSeg name, b.toNat < 128 := by
+    intro b hb
+    unfold nodeIdNameSeg at hb
+    simp only [List.mem_append, List.mem_replicate] at hb
+    cases hb with
+    | inl h1 => exact clusterNameChar_ascii (h.1 b h1)
+    | inr h2 => rw [h2.2]; decide
+  have hlen : 24 ≤ (nodeIdNameSeg name).length := by
+    unfold nodeIdNameSeg
+    have := charCount_le name
+    simp only [List.length_append, List.length_replicate, hN]
+    omega
+  unfold nodeIdPanics isCharBoundary
+  simp only [hN]
+  have h24 : ¬ (24 = 0) := by decide
+  simp only [h24, if_false]
+  cases hg : (nodeIdNameSeg name)[24]? with
+  | none =>
+    have : (nodeIdNameSeg name).length ≤ 24 := by
+      rw [List.getElem?_eq_none_iff] at hg; exact hg
+    have : 24 = (nodeIdNameSeg name).length := by omega
+    simp [this]
+  | some b =>
+    have hm : b ∈ nodeIdNameSeg name := List.mem_of_getElem? hg
+    have := hall b hm
+    simp only [Bool.not_not]
+    unfold utf8Cont
+    simp only [Bool.and_eq_false_iff, decide_eq_false_iff_not]
+    left; omega
+
+/-- what the restriction to ASCII buys: with `char::is_alphanumeric` the 25-byte name `a…a é` (23
+ASCII letters and a two-byte letter) would be accepted and make `gen_node_id` panic -/
+theorem C16_node_id_full_false :
+    clusterNameOkV false (List.replicate 23 97 ++ [195, 169]) = true ∧
+    nodeIdPanics (List.replicate 23 97 ++ [195, 169]) = true ∧
+    clusterNameOkV true (List.replicate 23 97 ++ [195, 169]) = false := by
+  decide +kernel
+
+/-- **C16_umctl_counts** — a counted loop of the UMCTL parsers that does not pre-size its vector
+starts at most `avail + 1` iterations and requests at most `4·elem·(avail + 1)` bytes, whatever
+count `n` the client declares. -/
+theorem C16_umctl_counts (elem per n avail : Nat) :
+    (countLoop false elem per n avail).iters ≤ avail + 1 ∧
+    (countLoop false elem per n avail).allocBytes elem ≤ 4 * elem * (avail + 1) := by
+  have hdiv : avail / max per 1 ≤ avail := Nat.div_le_self _ _
+  unfold CountLoopRes.allocBytes countLoop
+  simp only [if_false, Bool.false_eq_true]
+  refine ⟨by split <;> omega, ?_⟩
+  have : min n (avail / max per 1) + 1 ≤ avail + 1 := by omega
+  have := Nat.mul_le_mul_left (4 * elem) this
+  omega
+
+/-- a variant that pre-sizes with the declared count (`Vec::with_capacity(peer_num)`): `UMCTL SETREPL 1
+NOFLAG master c 127.0.0.1:7001 100000000000000` would request 4.8·10¹⁵ bytes for 7 arguments -/
+theorem C16_umctl_counts_full_false :
+    (countLoop true 48 2 100000000000000 0).reserve = 4800000000000000 ∧
+    (countLoop true 48 2 100000000000000 0).iters = 1 := by
+  decide +kernel
+
 /-! ## the current tree
 
 The statements above are per variant; these instantiate the full ones at what the extractor found
@@ -379,6 +454,14 @@ theorem C16_rangemap_cur (textual : Bool) (rs : List Um.Proto.Range) :
     (rangeMapFrom Um.Gen.Hostile.rangeMapBounded Um.Gen.Hostile.overflowChecks seen).steps ≤ seen.length * 16384 := by
   have h := C16_rangemap Um.Gen.Hostile.overflowChecks (rangesSeen Um.Gen.Hostile.compressedCompact textual rs)
   exact ⟨h.1, h.2.2⟩
+
+/-- the control-plane facts at the switch values read from the source: names are ASCII (so
+`gen_node_id` never panics on an installed name) and no UMCTL parser reserves by a declared count -/
+theorem C16_control_plane_cur :
+    (∀ name, clusterNameOkV Um.Gen.Hostile.clusterNameAscii name = true → nodeIdPanics name = false) ∧
+    (∀ elem per n avail,
+      (countLoop Um.Gen.Hostile.umctlCountPrealloc elem per n avail).allocBytes elem ≤ 4 * elem * (avail + 1)) :=
+  ⟨fun name h => C16_node_id name h, fun elem per n avail => (C16_umctl_counts elem per n avail).2⟩
 
 /-- the regression inputs of the seven findings, on the current tree -/
 theorem C16_regressions_cur :
